@@ -186,6 +186,14 @@ def conventions(name, st, key, point):
             out.append(("convention/%s" % name, "%s(%r).build_cdb(zz_not_a_field=0, **decoded fields) gives %s, the command's CDB is %s" % (name, point, again.hex(), ref.hex())))
     except Exception as e:   # noqa: BLE001
         out.append(("convention/%s" % name, "%s(%r).build_cdb(zz_not_a_field=0, **decoded fields) raised %s: %s" % (name, point, type(e).__name__, e)))
+    # ... and the class's marshall_cdb given the decoded fields as a row object (keys() / row[name]; iterating it yields the values)
+    try:
+        from vf.props.c02 import Record
+        again = bytes(cls.marshall_cdb(Record(fields)))
+        if again != ref:
+            out.append(("convention/%s" % name, "%s.marshall_cdb(row object holding the decoded fields of %r) gives %s, the command's CDB is %s" % (name, point, again.hex(), ref.hex())))
+    except Exception as e:   # noqa: BLE001
+        out.append(("convention/%s" % name, "%s.marshall_cdb(row object holding the decoded fields of %r) raised %s: %s" % (name, point, type(e).__name__, e)))
     for label, a, k in variants:
         try:
             got = bytes(cls(op, *a, **k).cdb)
